@@ -73,7 +73,7 @@ Inductive groute := RtOutside | RtStart | RtSignIn | RtSignOut | RtCallback | Rt
 
 Record ghost := {
   g_route : groute;                  (* where it aimed (RtOutside: wrong host / outside every slug) *)
-  g_kind : F.pkind;
+  g_kind : akind;
   g_method : str;
   g_ids : list str; g_secrets : list str;     (* every client id / secret value it put anywhere *)
   g_uri : str; g_sig : G.sigval; g_ts : str;  (* redirect_uri / sig (as it built it) / ts; for /start the nested ones *)
@@ -200,7 +200,7 @@ Definition code_holds (d : deployment) (now_ns : Z) (an : answers) (g : ghost) (
   | OLCode head code st =>
       match g_route g with
       | RtSignIn =>
-          Corr_C09.spec_code_allowed lower (fcfg d) (g_kind g) (now_ns / ns)%Z
+          Corr_C09.spec_code_allowed lower (fcfg d) (fkind (g_kind g)) (now_ns / ns)%Z
             (F.mkSI (is_get g) (id_shown d g) (in_domain_uri d (g_uri g)) (sig_ok d now_ns g) (g_state g))
             (g_cookie g) (an_refresh an) (an_validate an) (flow_calls (ob_calls o)) &&
           negb (isnil (g_state g)) && str_eqb st (g_state g) &&
